@@ -120,6 +120,9 @@ static void gen_dict_case(Tape &t, DictCase &k) {
 static std::vector<uint8_t> deflate_with_dict(const DictCase &k, const std::vector<uint8_t> &dict, int mode, igzc::StreamPlan p, std::string &err, int *set_rc = nullptr) {
 	igz::DefOpts o;
 	o.level = k.level; o.gzip_flag = k.gzip_flag; o.lbuf_size = k.lbuf; o.hist_bits = k.hist_bits;
+	// half of the time the window size is written into the stream struct only after the dictionary call (any order before the first isal_deflate is legal)
+	bool late_hist_bits = k.hist_bits != 0 && (mix64(k.data.size() + (uint64_t) mode * 977 + dict.size()) & 1);
+	if (late_hist_bits) o.hist_bits = 0;
 	igz::Deflater d(o);
 	guard::Buf db = guard::alloc_copy(dict.data(), dict.size(), guard::END, "dictionary");
 	guard::set_readonly(db);
@@ -140,6 +143,7 @@ static std::vector<uint8_t> deflate_with_dict(const DictCase &k, const std::vect
 	if (f.faulted) { err = "dictionary call: " + f.describe(); return {}; }
 	if (rc != COMP_OK) { err = fmt("dictionary call returned %d", rc); return {}; }
 	guard::retire(db); // the dictionary is copied: the caller may free it
+	if (late_hist_bits) { d.o.hist_bits = k.hist_bits; d.s->hist_bits = (uint16_t) k.hist_bits; }
 	std::string ks;
 	std::string e = igzc::run_stream(d, k.data, p, ks);
 	if (ks == "inconclusive") throw Skip("inconclusive");
